@@ -47,6 +47,8 @@ InitState(t) ==
          [] tr.kind \in {"cbloom", "cms"} -> [c |-> EmptyBag, n |-> 0, out |-> EmptyBag]
          [] tr.kind \in {"ebf", "rbf"} -> [subs |-> <<NewSub>>, n |-> 0, eff |-> 0, manual |-> FALSE, ins |-> EmptyBag, man |-> {}]
          [] tr.kind \in {"cko", "ccko"} -> [out |-> EmptyBag, n |-> 0]
+         [] tr.kind \in {"hh", "st"} -> [last |-> EmptyBag, n |-> 0]            \* last[k] = estimate returned by k's most recent add / remove
+         [] tr.kind = "bits" -> [bits |-> {}, n |-> 0]                          \* Bitarray: set of positions holding 1
          [] OTHER -> [S |-> {}, q |-> tr.q, n |-> 0]
 
 -----------------------------------------------------------------------------
@@ -107,6 +109,18 @@ Apply(s, e) ==
             [] e.op = "rem" ->      \* legitimate removals only (amount <= outstanding): every cell stays >= 0
                  [s EXCEPT !.c = @ (-) CellBag(ks, 1, Len(ks)), !.n = @ - SumBag(KeysBag(ks, 1, Len(ks))), !.out = @ (-) KeysBag(ks, 1, Len(ks))]
             [] e.op = "clear" -> [c |-> EmptyBag, n |-> 0, out |-> EmptyBag]
+            [] e.op = "join" ->      \* count-min join: the receiver takes the cells and the total of a sketch holding ks
+                 [s EXCEPT !.c = @ (+) CellBag(ks, 1, Len(ks)), !.n = @ + SumBag(KeysBag(ks, 1, Len(ks))), !.out = @ (+) KeysBag(ks, 1, Len(ks))]
+            [] OTHER -> s)
+    [] T.kind \in {"hh", "st"} ->
+         (CASE e.op \in {"add", "rem"} -> [last |-> [x \in (DOMAIN s.last) \cup {ks[1][1]} |-> IF x = ks[1][1] THEN e.ret ELSE s.last[x]],
+                                          n |-> IF e.op = "add" THEN s.n + ks[1][2] ELSE s.n - ks[1][2]]
+            [] e.op = "clear" -> [last |-> EmptyBag, n |-> 0]
+            [] OTHER -> s)
+    [] T.kind = "bits" ->
+         (CASE e.op = "set" -> [s EXCEPT !.bits = @ \cup {ks[i][1] : i \in 1..Len(ks)}]
+            [] e.op = "clr" -> [s EXCEPT !.bits = @ \ {ks[i][1] : i \in 1..Len(ks)}]
+            [] e.op = "clear" -> [s EXCEPT !.bits = {}]
             [] OTHER -> s)
     [] T.kind \in {"ebf", "rbf"} ->
          (CASE e.op = "add" -> EbfFold(s, ks, 1)
@@ -134,6 +148,8 @@ Answer(s, k) ==
   CASE T.kind \in {"bloom", "disk"} -> IF PosSet(k) \subseteq s.bits THEN 1 ELSE 0
     [] T.kind \in {"cbloom", "cms"} -> CellsMin(s.c, T.pos[k])
     [] T.kind \in {"ebf", "rbf"} -> IF InSubs(s.subs, k) THEN 1 ELSE 0
+    [] T.kind \in {"hh", "st"} -> 0
+    [] T.kind = "bits" -> IF k \in s.bits THEN 1 ELSE 0
     [] T.kind = "cko" -> IF Cnt(s.out, T.pos[k][1]) > 0 THEN 1 ELSE 0
     [] T.kind = "ccko" -> Cnt(s.out, T.pos[k][1])
     [] OTHER -> IF H(k) \in s.S THEN 1 ELSE 0
@@ -142,8 +158,19 @@ FullOK(s, e) ==
   CASE T.kind \in {"bloom", "disk"} ->
          IF e.op = "union" THEN {e.full[i] : i \in 1..Len(e.full)} = s.bits \cup AllPos(e.ks)     \* the union of this filter with a filter holding ks
          ELSE {e.full[i] : i \in 1..Len(e.full)} = s.bits
-    [] T.kind \in {"cbloom", "cms"} -> /\ \A i \in 1..Len(e.full) : Cnt(s.c, e.full[i][1]) = e.full[i][2]
-                                       /\ Len(e.full) = Cardinality(DOMAIN s.c)
+    [] T.kind \in {"cbloom", "cms"} ->
+         LET c2 == IF e.op = "union" THEN s.c (+) CellBag(e.ks, 1, Len(e.ks)) ELSE s.c IN       \* a counting-Bloom union is a query: this filter + a filter holding ks
+         /\ \A i \in 1..Len(e.full) : Cnt(c2, e.full[i][1]) = e.full[i][2]
+         /\ Len(e.full) = Cardinality(DOMAIN c2)
+    [] T.kind = "st" -> LET want == {k \in DOMAIN s.last : s.last[k] >= T.est} IN      \* est carries the threshold
+                        /\ {e.full[i][1] : i \in 1..Len(e.full)} = want
+                        /\ \A i \in 1..Len(e.full) : e.full[i][2] = s.last[e.full[i][1]]
+    [] T.kind = "hh" -> LET tracked == {e.full[i][1] : i \in 1..Len(e.full)}  seen == DOMAIN s.last IN      \* est carries number_heavy_hitters
+                        /\ Len(e.full) = Cardinality(tracked) /\ tracked \subseteq seen
+                        /\ Cardinality(tracked) = (IF Cardinality(seen) < T.est THEN Cardinality(seen) ELSE T.est)
+                        /\ \A i \in 1..Len(e.full) : e.full[i][2] = s.last[e.full[i][1]]
+                        /\ \A k \in seen \ tracked : \A i \in 1..Len(e.full) : s.last[k] <= e.full[i][2]
+    [] T.kind = "bits" -> {e.full[i] : i \in 1..Len(e.full)} = s.bits
     [] T.kind \in {"ebf", "rbf"} -> /\ Len(e.full) = Len(s.subs)
                                     /\ \A i \in 1..Len(e.full) : /\ e.full[i].n = s.subs[i].n
                                                                  /\ {e.full[i].bits[j] : j \in 1..Len(e.full[i].bits)} = s.subs[i].bits
@@ -162,12 +189,12 @@ Bad(s, e) ==     \* s = model state after the event
       kind == T.kind
       I == 1..Len(pr)
       unionEv == e.op = "union"
-      su == IF unionEv THEN [s EXCEPT !.bits = @ \cup AllPos(e.ks), !.out = @ (+) KeysBag(e.ks, 1, Len(e.ks))] ELSE s   \* probes of a union event are taken on the result
+      su == IF unionEv /\ kind \in {"bloom", "disk"} THEN [s EXCEPT !.bits = @ \cup AllPos(e.ks), !.out = @ (+) KeysBag(e.ks, 1, Len(e.ks))] ELSE s   \* probes of a union event are taken on the result
   IN
-  (IF ~unionEv /\ e.n # s.n THEN {IF kind = "qf" THEN "C04.count" ELSE "C14.count." \o kind} ELSE {})
+  (IF ~unionEv /\ kind # "bits" /\ e.n # s.n THEN {IF kind = "qf" THEN "C04.count" ELSE "C14.count." \o kind} ELSE {})
   \cup (IF kind \in {"bloom", "disk", "ebf"} /\ \E i \in I : Owed(su, pr[i][1]) > 0 /\ pr[i][2] = 0
         THEN {IF unionEv THEN "C01.present_after_union" ELSE "C01.present." \o kind} ELSE {})
-  \cup (IF unionEv /\ Len(e.full) > 0 /\ ~FullOK(s, e) THEN {"C12.cells"} ELSE {})
+  \cup (IF unionEv /\ kind \in {"bloom", "disk"} /\ Len(e.full) > 0 /\ ~FullOK(s, e) THEN {"C12.cells"} ELSE {})
   \cup (IF kind = "cbloom" /\ \E i \in I : pr[i][2] < Owed(s, pr[i][1]) THEN {"C08.cb_lower"} ELSE {})
   \cup (IF kind = "cms" /\ \E i \in I : (pr[i][2] < Owed(s, pr[i][1]) \/ pr[i][2] > s.n) THEN {"C02.bounds"} ELSE {})
   \cup (IF kind = "cms" /\ e.op \in {"add", "rem"} /\ Len(e.ks) = 1 /\ e.ret # Answer(s, e.ks[1][1]) THEN {"C02.ret_eq_check"} ELSE {})
@@ -183,8 +210,12 @@ Bad(s, e) ==     \* s = model state after the event
   \cup (IF kind = "rbf" /\ (Len(e.aux.ns) < 1 \/ Len(e.aux.ns) > T.qmax) THEN {"C10.bounds"} ELSE {})
   \cup (IF kind = "rbf" /\ \E i \in I : LET k == pr[i][1] IN
             k \in DOMAIN s.ins /\ k \notin s.man /\ s.eff - s.ins[k] < (T.qmax - 1) * T.est /\ pr[i][2] = 0 THEN {"C10.window"} ELSE {})
-  \cup (IF kind \notin {"qf", "cko", "ccko"} /\ \E i \in I : pr[i][2] # Answer(su, pr[i][1]) THEN {"DRIFT.answer"} ELSE {})
-  \cup (IF kind \notin {"qf", "cko", "ccko"} /\ ~unionEv /\ Len(e.full) > 0 /\ ~FullOK(s, e) THEN {"DRIFT.state"} ELSE {})
+  \cup (IF kind \in {"hh", "st"} /\ Len(e.full) > 0 /\ e.aux.dump = 1 /\ ~FullOK(s, e) THEN {IF kind = "hh" THEN "C17.hh_table" ELSE "C17.thr_exact"} ELSE {})
+  \cup (IF kind = "bits" /\ \E i \in I : pr[i][2] # Answer(s, pr[i][1]) THEN {"C20.read_last_write"} ELSE {})
+  \cup (IF kind = "bits" /\ e.aux.dump = 1 /\ (~FullOK(s, e) \/ e.ret # Cardinality(s.bits)) THEN {"C20.frame_popcount"} ELSE {})
+  \cup (IF kind \in {"cbloom", "cms"} /\ unionEv /\ Len(e.full) > 0 /\ ~FullOK(s, e) THEN {"C12.cells"} ELSE {})
+  \cup (IF kind \notin {"qf", "cko", "ccko", "hh", "st", "bits"} /\ ~unionEv /\ \E i \in I : pr[i][2] # Answer(su, pr[i][1]) THEN {"DRIFT.answer"} ELSE {})
+  \cup (IF kind \notin {"qf", "cko", "ccko", "hh", "st", "bits"} /\ ~unionEv /\ Len(e.full) > 0 /\ ~FullOK(s, e) THEN {"DRIFT.state"} ELSE {})
   \cup (IF kind = "qf" /\ e.aux.q # s.q THEN {"DRIFT.q"} ELSE {})
 
 Init == tid = 1 /\ l = 1 /\ st = InitState(1) /\ fails = {}
